@@ -1,5 +1,6 @@
 import DirectVerif.Driver.Common
 import DirectVerif.Model.Config
+import DirectVerif.Model.ConfigGuard
 import DirectVerif.Gen.C20
 /-!
 Line-protocol interpreter of the C20 model.
@@ -11,6 +12,15 @@ Line-protocol interpreter of the C20 model.
   flatten | val                 dict_flatten keys of a tree
   reg kind i                    the i-th entry of a registry table (0 models, 1 engines, 2 datasets, 3 masking functions,
                                 4 TransformsType members, 5 referenced functionals, 6 referenced losses, 7 dataset base classes)
+
+  guard route typed | name | val  verdict of the guards of the class the block is routed to: 0 rejected, 1 passes, 2 undecided
+                                (route 0 model block, 1 masking block, 2 dataset block, 4 dispatches without a raising else;
+                                 typed = 1: values are merged into the config class first)
+  consume i | val               the i-th consumer (`_compute_resolution` …) accepts the value the file tree `val` leaves at its path
+  kwpol | name | key            `Model(**{…, key: …})` is let through by the constructor's keyword handling
+  chain | path                  the attribute chain names declared fields of the installed `DefaultConfig`
+  optim | val                   `training.optimizer` of the file tree is an attribute of `torch.optim`
+  binds | name | keys           the masking function `name` gets its mandatory parameters from a raw block with these keys
 
 Trees on the wire: 0 null | 1 missing | 2 i | 3 sym (float) | 4 b | 5 sym kind | 6 n e₁…eₙ | 7 n k₁ v₁ … kₙ vₙ.
 Path steps: `k ≥ 0` = map key `k`, `-(i+1)` = list index `i`.
@@ -118,6 +128,41 @@ def step (op : String) (gs : List (List Int)) : String :=
     else if kind = 6 then bit ((Gen.C20.referencedLosses[i]?).map (Gen.C20.permissibleLosses.contains ·))
     else if kind = 7 then bit ((Gen.C20.datasetBaseClasses[i]?).map (datasetRegistered T))
     else "err BadOp"
+  | "guard", [[route, typed], name, val] =>
+    match decodeAll val with
+    | none => "err BadOp"
+    | some block =>
+      let G := Gen.C20.gtables
+      let n := nats name
+      if route = 0 ∨ route = 4 then
+        match modelClassOf T block with
+        | some cls => okG [[Int.ofNat (guardsVerdict T G route.toNat cls (modelSchema T block) block)]]
+        | none => "err BadOp"
+      else if route = 1 then
+        okG [[Int.ofNat (guardsVerdict T G 1 (packPair (maskFuncTarget n))
+          (if typed = 1 then some Gen.C20.maskingSchema else none) block)]]
+      else if route = 2 then
+        okG [[Int.ofNat (guardsVerdict T G 2 (packPair (datasetClassTarget n))
+          (if typed = 1 then lookupSchema T (datasetConfigTarget n) else none) block)]]
+      else "err BadOp"
+  | "consume", [[i], val] =>
+    match Gen.C20.consumers[i.toNat]?, decodeAll val with
+    | some k, some file => okG [[b2i (consumerOk T Gen.C20.gtables (installedRoot T) file k)]]
+    | _, _ => "err BadOp"
+  | "kwpol", [name, key] =>
+    match classInfo Gen.C20.gtables 0 (packPair (modelTarget (nats name))) with
+    | some info =>
+      let k := nats key
+      okG [[b2i ((info.params.any fun p => T.strOf p.1 == k) || (info.varkw && kwAllowed info.kwPolicy k))]]
+    | none => "err BadOp"
+  | "chain", [path] => okG [[b2i (chainOk (installedRoot T) (path.map Int.toNat))]]
+  | "optim", [val] =>
+    match decodeAll val with
+    | some file => okG [[b2i (optimizerOk T Gen.C20.kOptimizer file)]]
+    | none => "err BadOp"
+  | "binds", [name, keys] =>
+    okG [[b2i (maskCtorBinds T Gen.C20.gtables none
+      (.map ((T.kName, .str (T.symbols.idxOf (pack (nats name))) 0) :: keys.map fun k => (k.toNat, Val.null))))]]
   | "flatten", [val] =>
     match decodeAll val with
     | some v => okG [(flattenKeys v).map Int.ofNat]
